@@ -1,7 +1,7 @@
 (* Props/C19.v — the theorems that decide property C19 (chain-root MMR part;
    the block-filter clauses are decided by the harness's predicate only, see
    the level note).  Statements only. *)
-From CKB Require Import Chain.MMR Chain.MMRProofs Chain.Filter Chain.FilterProofs.
+From CKB Require Import Chain.MMR Chain.MMRProofs Chain.Filter Chain.FilterProofs Chain.Extension Chain.ExtensionProofs.
 
 (* The MMR is append-only: the node at a position depends only on the leaves
    before it, so two chains share the nodes of their common prefix. *)
@@ -79,6 +79,40 @@ Theorem c19_example_reorg :
   end.
 Proof. exact ex_reorg_roots. Qed.
 
+(* The acceptance side of the commitment (BlockExtensionVerifier): with the chain-root rule active a
+   block passes iff it carries exactly the extension field, of 32..96 bytes, whose first 32 bytes are the
+   MMR root over its ancestors' header digests, and its extra hash commits to that extension; so every
+   accepted block on any fork commits to that root. *)
+Theorem c19_extension_accepted_iff_commits_root : forall root b, length root = 32 ->
+  ext_verify true root b = None <->
+  e_extra_fields b = 1 /\
+  exists bytes, e_ext b = Some bytes /\ 32 <= length bytes <= 96 /\ firstn 32 bytes = root /\
+                e_extra_hash_ok b = true.
+Proof. exact ext_verify_active_iff. Qed.
+
+Theorem c19_accepted_blocks_commit_the_root : forall root b bytes, length root = 32 ->
+  ext_verify true root b = None -> e_ext b = Some bytes -> firstn 32 bytes = root.
+Proof. exact accepted_blocks_commit_the_root. Qed.
+
+Theorem c19_extension_before_activation : forall root b,
+  ext_verify false root b = None <->
+  e_extra_hash_ok b = true /\
+  (e_extra_fields b = 0 \/ (e_extra_fields b = 1 /\ exists bytes, e_ext b = Some bytes /\ 1 <= length bytes <= 96)).
+Proof. exact ext_verify_inactive_iff. Qed.
+
+(* non-vacuity, and the variant without the short-length rejection (checked slicing): a block whose
+   16-byte extension commits to no root passes *)
+Theorem c19_extension_example :
+  length ex_root = 32 /\ ext_verify true ex_root ex_good = None /\
+  ext_verify true ex_root ex_short = Some EInvalidBlockExtension /\
+  ext_verify true ex_root (mkEB 0 None true) = Some ENoBlockExtension /\
+  ext_verify true ex_root (mkEB 1 (Some (2%N :: tl ex_root)) true) = Some EInvalidChainRoot.
+Proof. exact ex_extension. Qed.
+Theorem c19_extension_lenient_refuted :
+  ext_verify_lenient true ex_root ex_short = None /\
+  (forall bytes, e_ext ex_short = Some bytes -> firstn 32 bytes <> ex_root).
+Proof. exact lenient_refuted. Qed.
+
 Redirect "out/C19.c19_nodes_prefix" Print Assumptions c19_nodes_prefix.
 Redirect "out/C19.c19_mmr_size" Print Assumptions c19_mmr_size.
 Redirect "out/C19.c19_peaks_read_back" Print Assumptions c19_peaks_read_back.
@@ -89,3 +123,8 @@ Redirect "out/C19.c19_example_contains" Print Assumptions c19_example_contains.
 Redirect "out/C19.c19_example_reorg" Print Assumptions c19_example_reorg.
 Redirect "out/C19.c19_filter_pass_ok" Print Assumptions c19_filter_pass_ok.
 Redirect "out/C19.c19_filter_example" Print Assumptions c19_filter_example.
+Redirect "out/C19.c19_extension_accepted_iff_commits_root" Print Assumptions c19_extension_accepted_iff_commits_root.
+Redirect "out/C19.c19_accepted_blocks_commit_the_root" Print Assumptions c19_accepted_blocks_commit_the_root.
+Redirect "out/C19.c19_extension_before_activation" Print Assumptions c19_extension_before_activation.
+Redirect "out/C19.c19_extension_example" Print Assumptions c19_extension_example.
+Redirect "out/C19.c19_extension_lenient_refuted" Print Assumptions c19_extension_lenient_refuted.
